@@ -216,7 +216,7 @@ namespace {
             }
             ctx.program = p;
         }
-        sim_config sc = draw_sim_config(ctx, 80000, FAULT_STALL | FAULT_TRYFAIL);
+        sim_config sc = draw_sim_config(ctx, 80000, FAULT_STALL | FAULT_TRYFAIL | FAULT_SPURIOUS);
         begin_sim(ctx, sc);
         focus_select(ctx, c01_focus, 3);
         g_dump_hook = +[]() -> std::string {
